@@ -8,6 +8,7 @@ import Gowarc.Driver.RevisitH
 import Gowarc.Driver.WriterH
 import Gowarc.Driver.CutsH
 import Gowarc.Driver.ResH
+import Gowarc.Driver.CrashH
 namespace Gowarc.Driver
 
 def handleLine (line : String) : String :=
@@ -35,6 +36,7 @@ def handleLine (line : String) : String :=
       | "writer" => handleWriter args
       | "cuts" => handleCuts args
       | "res" => handleRes args
+      | "crash" => handleCrash args
       | _ => "unknown-kind"
     id ++ " " ++ out
   | _ => "? bad-line"
